@@ -44,7 +44,17 @@ def _num(tree, rel, expr):
         return expr.value
     if isinstance(expr, ast.UnaryOp) and isinstance(expr.op, ast.USub) and isinstance(expr.operand, ast.Constant):
         return -expr.operand.value
-    return const_int(tree, rel, expr)
+    got = const_int(tree, rel, expr)
+    if got is None and isinstance(expr, ast.Attribute) and isinstance(expr.value, ast.Name):
+        # self.NAME / Cls.NAME: a numeric class attribute of a class of this module
+        for node in ast.walk(tree.module(rel).tree):
+            if isinstance(node, ast.ClassDef) and (expr.value.id in ('self', 'cls') or expr.value.id == node.name):
+                for item in node.body:
+                    if isinstance(item, ast.Assign) and any(src(t) == expr.attr for t in item.targets):
+                        val = _num(tree, rel, item.value)
+                        if val is not None:
+                            return val
+    return got
 
 
 def linear(expr, names):
@@ -178,3 +188,64 @@ def aliased_list_mutation(tree, cg, fv, loop, container_param_call):
                 if getattr(fn, 'name', '') == 'remove_block':
                     return '{} -> {}'.format(src(call)[:50], cg.chain_text(chain))
     return None
+
+
+
+def route_table_loading(tree, ob, attr, item_cls, fieldmap):
+    ''' First-match routing is decided over the table as the agent holds it, so the table has to be the configured list:
+    same entries, same order, nothing merged.  Everything that writes <attr> in bp/ is enumerated: an empty list, or an
+    append; the configuration loader appends one <item_cls> per configured item, inside the loop over the configured
+    items, with its fields read from that item. '''
+    CONFIG = 'bp/config.py'
+    n = 0
+    for rel in sorted(r for r in tree.modules if r.startswith('bp/')):
+        for (r, qual, func) in tree.all_functions([rel]):
+            for node in walk_local(func):
+                # stores
+                tgts = []
+                if isinstance(node, ast.Assign):
+                    tgts = [(t, node.value) for t in node.targets]
+                elif isinstance(node, (ast.AugAssign, ast.AnnAssign)):
+                    tgts = [(node.target, node.value)]
+                for (t, v) in tgts:
+                    if isinstance(t, ast.Attribute) and t.attr == attr:
+                        n += 1
+                        if (isinstance(v, ast.List) and not v.elts) or (isinstance(v, ast.Call) and src(v) == 'list()'):
+                            ob.site(rel, node, '{} reset to the empty list'.format(attr))
+                        else:
+                            ob.violate(rel, qual, src(node)[:80], 'the {} is assigned from something other than an empty list: entries merged, reordered or dropped on the way are '
+                                       'not the configured table, and first-match over it picks a different route'.format(attr), node)
+                    if isinstance(t, ast.Subscript) and isinstance(t.value, ast.Attribute) and t.value.attr == attr:
+                        n += 1
+                        ob.violate(rel, qual, src(node)[:80], 'an entry of the {} is replaced in place'.format(attr), node)
+                if isinstance(node, ast.Call) and isinstance(node.func, ast.Attribute) and isinstance(node.func.value, ast.Attribute) and node.func.value.attr == attr:
+                    n += 1
+                    if node.func.attr != 'append':
+                        ob.violate(rel, qual, src(node)[:80], 'the {} is edited by {}(): the order of the configured entries is not kept'.format(attr, node.func.attr), node)
+                    elif rel != CONFIG:
+                        ob.site(rel, node, '{}: run-time route appended behind the configured ones'.format(attr))
+                    else:
+                        fv = FuncView(tree, rel, qual)
+                        loop = enclosing(node, ast.For)
+                        ok = loop is not None and isinstance(loop.target, ast.Name) and pm('bpdat[$k]', loop.iter) is not None
+                        item = loop.target.id if ok else None
+                        if ok:
+                            k = pm('bpdat[$k]', loop.iter)['k']
+                            ok = (isinstance(k, ast.Constant) and k.value == attr) or fv.has(loop, "{} == '{}'".format(src(k), attr), True)
+                        why = 'the append is not inside the loop over the configured entries'
+                        if ok:
+                            arg = node.args[0] if node.args else None
+                            arg = fv.value_at(arg, node, depth=3, keep=(item,)) if arg is not None else None
+                            ok = isinstance(arg, ast.Call) and call_name(arg) == item_cls
+                            why = 'what is appended is not one {} per configured entry'.format(item_cls)
+                            if ok:
+                                for (fname, want) in fieldmap.items():
+                                    got = kwarg(arg, fname)
+                                    if got is None or src(got) != want.replace('item', item):
+                                        ok = False
+                                        why = '{}.{} is not read from the configured entry ({})'.format(item_cls, fname, src(got) if got is not None else 'missing')
+                        if ok:
+                            ob.site(rel, node, '{}: one {} per configured entry, in file order'.format(attr, item_cls))
+                        else:
+                            ob.violate(rel, qual, src(node)[:80], why + ': the table consulted by first-match routing is not the configured one', node)
+    ob.require(n >= 1, 'writers of {} found: {}'.format(attr, n))
